@@ -616,8 +616,14 @@ macro_rules! interp {
                                 "slice.trait" => drive(&mut IntoIterator::into_iter(regs[r].as_slice()), steps, show),
                                 "slice.for_ref" => { let sl = regs[r].as_slice(); let mut it: $IT<'_> = (&sl).into_iter(); drive(&mut it, steps, show) }
                                 "slicemut.iter" => { let mut sl = regs[r].as_mut_slice(); let mut it: $IT<'_> = sl.iter(); drive(&mut it, steps, show) }
+                                // the view is used again after the iterator obtained from it by reference is gone
+                                "slice.iter.reuse" => { let sl = regs[r].as_slice(); let a = { let mut it: $IT<'_> = sl.iter(); drive(&mut it, steps, show) };
+                                    format!("{},P{},Q{}", a, sl.len(), sl.iter().count()) }
+                                "slicemut.iter.reuse" => { let mut sl = regs[r].as_mut_slice(); let a = { let mut it: $IT<'_> = sl.iter(); drive(&mut it, steps, show) };
+                                    let n = sl.len(); format!("{},P{},Q{}", a, n, sl.iter().count()) }
                                 _ => panic!("bad iterator source") } });
-                        let rs = exec(1, || -> String { drive(&mut mirs[r].iter(), steps, |x: &T, _k| el_ids(x)) });
+                        let rs = exec(1, || -> String { let a = drive(&mut mirs[r].iter(), steps, |x: &T, _k| el_ids(x));
+                            if src.ends_with(".reuse") { format!("{},P{},Q{}", a, mirs[r].len(), mirs[r].iter().count()) } else { a } });
                         (ri, rs) }
                     "itermut" => { let r = reg(w[1]); let (src, steps) = (w[2], w[3]); let nl = <T as Shape>::nleaves();
                         let ri = exec(0, || -> String {
@@ -628,8 +634,11 @@ macro_rules! interp {
                                 "slicemut.iter_mut" => { let mut sl = regs[r].as_mut_slice(); let mut it: $ITM<'_> = sl.iter_mut(); drive(&mut it, steps, show) }
                                 "slicemut.into_iter" => drive(&mut regs[r].as_mut_slice().into_iter(), steps, show),
                                 "slicemut.trait" => drive(&mut IntoIterator::into_iter(regs[r].as_mut_slice()), steps, show),
+                                "slicemut.iter_mut.reuse" => { let mut sl = regs[r].as_mut_slice(); let a = { let mut it: $ITM<'_> = sl.iter_mut(); drive(&mut it, steps, show) };
+                                    let n = sl.len(); format!("{},P{},Q{}", a, n, sl.iter_mut().count()) }
                                 _ => panic!("bad iterator source") } });
-                        let rs = exec(1, || -> String { drive(&mut mirs[r].iter_mut(), steps, |x: &mut T, k| { let s = el_ids(x); let l = k % nl; let mut j = l as i64; <T as Shape>::own_write(x, &mut j, ((16 + k as u32) % 32) * 8 + l as u32); s }) });
+                        let rs = exec(1, || -> String { let a = drive(&mut mirs[r].iter_mut(), steps, |x: &mut T, k| { let s = el_ids(x); let l = k % nl; let mut j = l as i64; <T as Shape>::own_write(x, &mut j, ((16 + k as u32) % 32) * 8 + l as u32); s });
+                            if src.ends_with(".reuse") { format!("{},P{},Q{}", a, mirs[r].len(), mirs[r].iter_mut().count()) } else { a } });;
                         (ri, rs) }
                     // sort r <entry> [mod=m] [panic=k] [range=a:b]
                     "sort" => { let r = reg(w[1]); let entry = w[2]; let kl = key_leaf::<T>();
